@@ -143,6 +143,18 @@ CHECKS = {
         note="Configurations x sizes are finite samples of the input space (one mock spectrum family); size floors per entry point are frozen; KK/DRT step accounting is validated against the counter machine only, not re-derived.",
         technique="TLA+ spec (Progress.tla, ProgressMC.tla) + TLC; spec->code drive of every option combination and code->spec batched trace validation (TraceProgress.tla)",
     ),
+    "C19": dict(
+        text="specs/Cli.tla models the `parse` command as the DataSet actions it performs (low/high-pass filter, excluded indices, refusal "
+             "when nothing is left) and the mock-data specifier split rule (last colon after the last closing bracket), checks them on "
+             "the model, and enumerates the configurations of parse, specifiers, circuit --simulate, fit and drt. Every configuration is "
+             "run in-process through pyimpspec.cli.main(); the printed/written tables (csv, json, md) are parsed back and compared with "
+             "the model's visible point ids (parse) or with the API call the configuration denotes (generate_mock_data, "
+             "simulate_spectrum, fit_circuit, calculate_drt).",
+        design_ref="§4 C19",
+        note="fit/drt and simulate are differential comparisons driven by TLC-enumerated configurations (the spec does not predict their numbers); flag subsets as listed in Cli.tla; plots are produced with the Agg backend and ignored.",
+        technique="TLA+ spec (Cli.tla) + TLC-enumerated configurations with model-computed expectations for parse/specifiers; spec->code replay through the in-process CLI",
+        category="model_checking",
+    ),
     "C20": dict(
         text="The circuits of specs/Circuit.tla (incl. degenerate API-only shapes and labels that are not identifiers) are enumerated by "
              "TLC; for every complete, simulatable circuit the real to_sympy(False/True), to_latex, to_circuitikz and to_drawing are "
